@@ -335,13 +335,29 @@ class Scheduler:
             acquired = True
             self.task_states[tid] = LocalStatus.RUNNING
 
-            proc = await asyncio.create_subprocess_shell(
-                script,
-                stdout=asyncio.subprocess.PIPE,
-                stderr=asyncio.subprocess.PIPE,
-                cwd=working_dir,
-                start_new_session=True,
+            # A cancel request may arrive while the process is being started.
+            # If the start-up itself were cancelled, asyncio would kill only
+            # the shell and then wait for its pipes, which children the script
+            # has already spawned keep open: they would survive and this task
+            # would hang holding its core. So let the start-up finish and kill
+            # the whole process group as for any other cancellation.
+            spawn = asyncio.ensure_future(
+                asyncio.create_subprocess_shell(
+                    script,
+                    stdout=asyncio.subprocess.PIPE,
+                    stderr=asyncio.subprocess.PIPE,
+                    cwd=working_dir,
+                    start_new_session=True,
+                )
             )
+            try:
+                proc = await asyncio.shield(spawn)
+            except asyncio.CancelledError:
+                try:
+                    proc = await spawn
+                except Exception:
+                    proc = None
+                raise
             try:
                 logger.debug("task starting")
                 stdout, stderr = await asyncio.wait_for(
